@@ -619,6 +619,13 @@ pub fn check(cfg: &Cfg) -> Result<i32, Harness> {
             let case = gen_case(&mut rng, &filters);
             let mut tally = Tally::default();
             let (v, h) = eval(&case, &su, wk, &mut tally)?;
+            record_digest(i, h.digest());
+            if std::env::var("VF_TRACE_DUMP").ok().and_then(|s| s.parse::<u64>().ok()) == Some(i) {
+                for o in &h.ops {
+                    eprintln!("DUMP {:?} {} ret={} inj={:?}", o.seq, o.sig(), o.ret.min(1 << 40), o.injected);
+                }
+                eprintln!("DUMP exit={:?} stdout={:?} stderr={:?}", h.exit, String::from_utf8_lossy(&h.stdout.0), String::from_utf8_lossy(&h.stderr.0));
+            }
             tally.add(format!("runs:{}", case.kind));
             for f in &h.fired {
                 tally.add(format!("fired:{}", f.split(' ').nth(1).unwrap_or("?")));
